@@ -459,7 +459,13 @@ func (nz *Normalizer) detectGuard(fset *token.FileSet, s *nfSite, stmt ast.Stmt,
 			}
 			o := info.Defs[id]
 			if o == nil {
-				return nil, nil, false // reuses an existing variable
+				// `x, err := f()` that reuses an existing err: the guard body placed at a return site reads
+				// the result temporaries and returns, so the variable itself need not be assigned on that
+				// path — unless a closure of the caller could observe it
+				o = info.Uses[id]
+				if o == nil || usedInFuncLit(info, s.stack, o) {
+					return nil, nil, false
+				}
 			}
 			objs = append(objs, o)
 		}
@@ -620,4 +626,31 @@ func precedingAssign(info *types.Info, body *ast.BlockStmt, ret *ast.ReturnStmt,
 		return out == nil
 	})
 	return out
+}
+
+// usedInFuncLit: some function literal of the enclosing function declaration mentions obj.
+func usedInFuncLit(info *types.Info, stack []ast.Node, obj types.Object) bool {
+	var encl ast.Node
+	for _, n := range stack {
+		if fd, ok := n.(*ast.FuncDecl); ok {
+			encl = fd
+			break
+		}
+	}
+	if encl == nil {
+		return true
+	}
+	found := false
+	ast.Inspect(encl, func(n ast.Node) bool {
+		if fl, ok := n.(*ast.FuncLit); ok {
+			ast.Inspect(fl.Body, func(m ast.Node) bool {
+				if id, isID := m.(*ast.Ident); isID && info.Uses[id] == obj {
+					found = true
+				}
+				return !found
+			})
+		}
+		return !found
+	})
+	return found
 }
